@@ -49,12 +49,15 @@ target("breezy/transform.py::_alter_files", block=(r"keep_content = False", r"if
 
 # ---- InventoryWorkingTree.remove: the per-file deletion step (block). files_to_backup holds what must not be lost: unknown / newly added
 #      files and versioned files with changed content (built just before by the function when neither keep_files nor force is given).
-assumed("self.abspath", pure=True, no_raise=True, result=STR)
+Abs = ufunc("Abs", STR, STR)
+assumed("self.abspath", pure=True, no_raise=True, returns=lambda c: Abs(c.args[0]))
 assumed("osutils.lexists", pure=True, no_raise=True, result=BOOL)
 assumed("osutils.isdir", pure=True, no_raise=True, result=BOOL)
 assumed("os.listdir", pure=True, result=Seq(STR), raises={"OSError": None})
-assumed("osutils.rmtree", result=NONE, raises={"Exception": "unchanged"}, note="deletes a directory tree")
-assumed("osutils.delete_any", result=NONE, raises={"Exception": "unchanged"}, note="deletes a file or empty directory")
+assumed("osutils.rmtree", result=NONE, raises={"Exception": "unchanged"}, note="deletes a directory tree",
+        requires=lambda c: c.args[0] == Abs(c.f))        # only ever the path being removed
+assumed("osutils.delete_any", result=NONE, raises={"Exception": "unchanged"}, note="deletes a file or empty directory",
+        requires=lambda c: c.args[0] == Abs(c.f))
 assumed("backup", result=STR, raises={"Exception": "unchanged"}, note="the nested helper: renames the path to a fresh backup name (never deletes)")
 exceptions(OSError="Exception")
 target("breezy/bzr/workingtree.py::InventoryWorkingTree.remove", block={"stmt": "If", "contains": r"if not keep_files:\n\s+abs_path = self\.abspath\(f\)"},
